@@ -1261,7 +1261,7 @@ func c18(sum *lib.Summary) {
 		CheckFn:  "check18",
 		PerFile:  500,
 	}
-	ntriples, ncoq, scriptEvery := 700, 70, 5
+	ntriples, ncoq, scriptEvery := 600, 70, 6
 	if *tier == "thorough" {
 		ntriples, ncoq, scriptEvery = 8000, 800, 8
 	}
@@ -1270,7 +1270,7 @@ func c18(sum *lib.Summary) {
 		"all 9 Equal results, the 4 comparison operators on comparable kinds, HashInput bytes and a dictionary built from the triple are taken from the " +
 		"real interpreter values; checked against the laws (reflexive, symmetric, transitive, trichotomy, <= / >= consistent, equal => same hash input, " +
 		"equal keys => one entry found by either), against a canonical-form oracle, against the Coq model (first triples) and reproduced by scripts in " +
-		"both engines (every 5th triple, every 8th at the thorough tier). non-trivial = the triple contains two distinct representations of equal values, or an equal pair, or values of " +
+		"both engines (every 6th triple, every 8th at the thorough tier). non-trivial = the triple contains two distinct representations of equal values, or an equal pair, or values of " +
 		"different kinds; distinct = distinct triples by description"
 	h := lib.NewHost()
 	distinct := map[string]bool{}
